@@ -1,6 +1,7 @@
 import ScrutModel.Lemmas.GenerateCram
 import ScrutModel.Lemmas.GenerateUpdate
 import ScrutModel.Props.C11
+import ScrutModel.Lemmas.UpdateRunWitness
 /-!
 # C09 — Generated tests pass against the very output they were generated from
 
@@ -75,6 +76,21 @@ Assumption (not in the model): the original text of a retained expectation parse
 expectation it came from (same rule, same quantifiers), so that the updated list's entry `kept ei`
 matches what `mt ei` says -- decided on the real code by the update oracles (real `update` → real
 parser → real `validate`).
+
+**`update` through the composition** (`Model/UpdateRun.lean`, the integrated model of `scrut update`
+tied to the binary by the stream `e2e-upddoc`; proofs in `Lemmas/UpdateRunRejudge.lean`,
+`Lemmas/UpdateRunProps.lean`).  There the assumption above is no assumption: the retained texts and
+the generated lines are compiled by the SAME `TestRun.compile` that `scrut test` / `update` compile
+a document's expectation lines with, the match matrix is `Rule.matches`, the diff is the one
+`UpdateRun.judge` computes on the recorded stream.  `C09_run_outcome_rejudged`: for ONE test, whatever
+its result (`Ok`, `InvalidExitCode`: no guard; `MalformedOutput`: no quantified expectation), the
+text `generate_testcase` returns is the text of a test `u'` -- same configuration, same command, the
+written expectation lines compiled by `compile`, the exit code as written (`RewrittenAs`) -- that
+PASSES on the same run (`Passes`: exit code gate and the matcher on the validated stream).
+`C09_run_rewritten_passes`: the same for every test of a document that `updateDocument` overwrites,
+with `gens[k]` (the text that goes into block `k`, C10's `C10_run_unfolded`) = `passText u'`.  The
+last hop -- the written block, read by the document parser, IS that test (command, expectation
+lines, exit code) -- is `UpdateRun.reparse_block`, used by C10's `C10_run_idempotent_partial`.
 -/
 namespace Scrut.Props.C09
 open Scrut.Utf8 Scrut.Esc Scrut.EscLemmas Scrut.Rules Scrut.Gen Scrut.GenLemmas Scrut.Diff
@@ -370,6 +386,47 @@ theorem C09_update_witness_slots :
   have hd : diff 3 3 witEs witMt = [.matched 0 [0, 1], .unmatched 1, .matched 2 [2]] := by
     simp [diff, loop, rangeFrom, unmatchedOf, findFrom, witEs, witMt, List.range, List.range.loop]
   refine ⟨hd, by rw [hd]; rfl, by decide, by decide⟩
+
+/-! ### `update` through the composition: the rewritten test passes on the run it was updated from -/
+
+section Integrated
+open Scrut.UpdateRun Scrut.UpdateRun.Witness
+
+/-- **C09 (update, integrated, one test)**: `u` a test whose expectation texts compile to its
+expectations (`Compiled`: true of every test of a document), `r` the completed run of its command,
+`(res, g)` what `validate` and `generate_testcase` make of it.  Then `g` is the text of a test `u'`
+(`u` as rewritten: same configuration and command, the written expectation lines compiled by the same
+`compile`, the exit code as written) that passes on `r`.  Guard: for `MalformedOutput` no expectation
+of `u` carries a quantifier (`C09_update_fails_on_witness`). -/
+theorem C09_run_outcome_rejudged (isOther : Char → Bool) (hC : AsciiContract isOther) (u : UTest)
+    (hcomp : u.Compiled) (r : TestRun.Ran) (res : UpdResult) (g : List Char)
+    (h : outcomeText isOther u r = .ok (res, some g))
+    (hq : (∃ d, res = .malformed d) → Unquantified u) :
+    ∃ u', RewrittenAs u u' r.code ∧ passText u' = some g ∧ Passes u' r :=
+  outcome_rejudged hC hcomp h hq
+
+/-- **C09 (update, integrated, the document)**: after `updateDocument` has overwritten a document,
+for every test `k` (prepared test `u`, run `r`, result `res`) the text written into its block
+(`gens[k]`) is the text of a test `u'` -- `u` rewritten -- that passes on `r`; for `MalformedOutput`
+provided `u` has no quantified expectation. -/
+theorem C09_run_rewritten_passes (isOther : Char → Bool) (hC : AsciiContract isOther) (content : List Char)
+    (runs : List TestRun.Ran) (text : List Char) (results : List UpdResult)
+    (h : updateDocument isOther content runs = .updated text results) :
+    ∃ tests gens, docTests content = some tests ∧ docGens isOther content runs = some gens ∧
+      gens.length = tests.length ∧ results.length = tests.length ∧
+      ∀ (k : Nat) (u : UTest) (r : TestRun.Ran) (res : UpdResult),
+        tests[k]? = some u → runs[k]? = some r → results[k]? = some res →
+        ((∃ d, res = .malformed d) → Unquantified u) →
+        ∃ u', RewrittenAs u u' r.code ∧ gens[k]? = some (passText u') ∧ Passes u' r :=
+  run_rewritten_passes hC h
+
+/-- the hypotheses hold for the document `# T` / ```` ```scrut ```` / `$ x` / `old` / ```` ``` ```` / `end` and
+the output `new`: it is overwritten, its test has the result `MalformedOutput` and no quantifier -/
+example : updateDocument ctrl docOrd [runNew] = .updated docOrdOut [.malformed [.unmatched 0, .unexpected [0]]] ∧
+    AsciiContract ctrl ∧ docTests docOrd = some [utOld] ∧ Unquantified utOld ∧ utOld.Compiled :=
+  ⟨ord_written, ctrl_contract, docTests_ord, by decide, .cons (by rfl) .nil⟩
+
+end Integrated
 
 /-! ### non-vacuity -/
 
